@@ -290,7 +290,13 @@ chars_utf8bytes(Cs, Bs) :-
      append(Bss, Bs)).
 
 decode_utf8([]) --> [].
-decode_utf8(Chars) --> leading(Nb, Code), continuation(Code, Chars, Nb).
+decode_utf8(Chars) --> leading(Nb, Code), {min_code(Nb, Min)}, continuation(Code, Min, Chars, Nb).
+
+% smallest code point that needs Nb bytes: anything below is an overlong form
+min_code(1, 0).
+min_code(2, 0x80).
+min_code(3, 0x800).
+min_code(4, 0x10000).
 
 leading(1, Byte) --> [Byte], {Byte /\ 0x80 =:= 0}.
 leading(2, Code) --> [Byte], {Byte /\ 0xE0 =:= 0xC0, Code is Byte - 0xC0}.
@@ -298,14 +304,15 @@ leading(3, Code) --> [Byte], {Byte /\ 0xF0 =:= 0xE0, Code is Byte - 0xE0}.
 leading(4, Code) --> [Byte], {Byte /\ 0xF8 =:= 0xF0, Code is Byte - 0xF0}.
 leading(1, 0xFFFD) --> [_]. % invalid first byte
 
-continuation(Code, [H|T], 1) --> {char_code(H, Code)}, decode_utf8(T).
-continuation(Code, Chars, Nb) --> [Byte],
+continuation(Code, Min, [H|T], 1) -->
+  {( Code < Min -> H = '\xFFFD\' ; char_code(H, Code) )}, decode_utf8(T).
+continuation(Code, Min, Chars, Nb) --> [Byte],
   {Nb1 is Nb - 1, Byte /\ 0xC0 =:= 0x80, NextCode is (Code << 6) \/ (Byte - 0x80)},
-  continuation(NextCode, Chars, Nb1).
+  continuation(NextCode, Min, Chars, Nb1).
 
 % invalid continuation byte
 % each remaining continuation byte (if any) will raise 0xFFFD too
-continuation(_, ['\xFFFD\'|T], _) --> [_], decode_utf8(T).
+continuation(_, _, ['\xFFFD\'|T], _) --> [_], decode_utf8(T).
 
 %% get_line_to_chars(+Stream, -Chars, +InitialChars).
 %
